@@ -40,8 +40,10 @@ func genSweep(t *rapid.T) top {
 
 var (
 	interfering = []string{"unlockBad", "unlockBad", "unlockBad", "ticket", "ticketBad", "chpass", "chpassBad", "status", "dump", "sign", "getseed", "req", "req", "req", "req"}
-	anyTop      = append([]string{"unlockT", "unlock0", "lock", "lock"}, interfering...)
-	probes      = []string{"status", "dump", "sign", "getseed", "req", "req", "req", "req", "req", "req"}
+	anyTop      = append([]string{"unlockT", "unlock0", "lock", "lock", "restart"}, interfering...)
+	// firstLife: what may arrive before anybody has unlocked the wallet with the right password
+	firstLife = []string{"unlockBad", "unlockBad", "unlockBad", "unlockBad", "ticketBad", "ticketBad", "ticket", "status", "status", "dump", "sign", "getseed", "req", "req", "chpassBad", "chpass", "lock", "restart"}
+	probes    = []string{"status", "dump", "sign", "getseed", "req", "req", "req", "req", "req", "req"}
 )
 
 func genTop(t *rapid.T, from []string) top {
@@ -61,6 +63,9 @@ func genTop(t *rapid.T, from []string) top {
 // [probes]+ ; built so that most awaits really have to wait for the wallet's own timer.
 func genTimeoutHistory(t *rapid.T) []top {
 	var ops []top
+	for i, k := 0, rapid.IntRange(1, 5).Draw(t, "firstLife"); i < k; i++ {
+		ops = append(ops, genTop(t, firstLife))
+	}
 	if rapid.IntRange(0, 2).Draw(t, "sweepAtStart") == 0 { // locked since start-up, password in memory
 		ops = append(ops, genSweep(t))
 	}
@@ -86,15 +91,21 @@ func genTimeoutHistory(t *rapid.T) []top {
 type timeoutStats struct {
 	waited, skipped               int
 	requests, requestsWhileLocked int
+	restarts, beforeFirstUnlock   int // beforeFirstUnlock: requests issued before any correct unlock of the history
 	badUnlockInside, chpassIns    bool
 }
 
-func runTimeoutHistory(t lib.TB, airDrop bool, ops []top) (st timeoutStats) {
-	w := newWorld(airDrop) // locked, password pw0 in memory, two accounts, key file, air-drop account iff airDrop
+func runTimeoutHistory(t lib.TB, start string, airDrop bool, ops []top) (st timeoutStats) {
+	var w *world
+	if start == "fresh" {
+		w = newWorldFresh() // first life: the seed was saved by this very process, nothing has been unlocked yet
+	} else {
+		w = newWorld(airDrop) // locked, password pw0 in memory, two accounts, key file, air-drop account iff airDrop
+	}
 	defer w.n.destroy()
-	wl, cur := w.n.w, pw0
+	cur := pw0
 	fail := func(step int, format string, a ...interface{}) {
-		lib.Violation(t, prop, "TestPropTimeoutHistory", map[string]interface{}{"airDropAccountAtStart": airDrop, "ops": ops[:step+1]}, "step %d (%s %s): %s", step, ops[step].Kind, ops[step].Fn, fmt.Sprintf(format, a...))
+		lib.Violation(t, prop, "TestPropTimeoutHistory", map[string]interface{}{"start": start, "airDropAccountAtStart": airDrop, "ops": ops[:step+1]}, "step %d (%s %s): %s", step, ops[step].Kind, ops[step].Fn, fmt.Sprintf(format, a...))
 	}
 	// model: open windows since the last closing evidence
 	untimed, timed := false, false
@@ -120,11 +131,17 @@ func runTimeoutHistory(t lib.TB, airDrop bool, ops []top) (st timeoutStats) {
 			lib.Class("unlocked_request_ok_" + fn)
 		}
 	}
+	unlockedOnce := false
 	for step, o := range ops {
 		inWindow := timed && !untimed
+		if o.Kind == "unlockT" || o.Kind == "unlock0" {
+			unlockedOnce = true
+		} else if !unlockedOnce {
+			st.beforeFirstUnlock++
+		}
 		switch o.Kind {
 		case "unlockT", "unlock0":
-			if err := wl.ProcWalletUnLock(&types.WalletUnLock{Passwd: cur, Timeout: o.Timeout}); err != nil {
+			if err := w.n.w.ProcWalletUnLock(&types.WalletUnLock{Passwd: cur, Timeout: o.Timeout}); err != nil {
 				fail(step, "unlock with the current password failed: %v", err) // not C38 proper, but nothing below makes sense then
 			}
 			if o.Timeout == 0 {
@@ -137,14 +154,18 @@ func runTimeoutHistory(t lib.TB, airDrop bool, ops []top) (st timeoutStats) {
 				timed = true
 			}
 		case "unlockBad", "ticketBad":
-			if err := wl.ProcWalletUnLock(&types.WalletUnLock{Passwd: "never" + cur, Timeout: o.Timeout, WalletOrTicket: o.Kind == "ticketBad"}); err == nil {
+			if err := w.n.w.ProcWalletUnLock(&types.WalletUnLock{Passwd: "never" + cur, Timeout: o.Timeout, WalletOrTicket: o.Kind == "ticketBad"}); err == nil {
 				fail(step, "unlock accepted a password that is not the wallet's")
 			}
 			st.badUnlockInside = st.badUnlockInside || (inWindow && o.Kind == "unlockBad")
 		case "ticket": // right password, mining-only unlock: must not open a wallet window
-			_ = wl.ProcWalletUnLock(&types.WalletUnLock{Passwd: cur, Timeout: o.Timeout, WalletOrTicket: true})
+			_ = w.n.w.ProcWalletUnLock(&types.WalletUnLock{Passwd: cur, Timeout: o.Timeout, WalletOrTicket: true})
+		case "restart": // a new process on the same database: locked, nothing in memory
+			w.n.restart()
+			closeAll()
+			st.restarts++
 		case "lock":
-			if err := wl.ProcWalletLock(); err != nil {
+			if err := w.n.w.ProcWalletLock(); err != nil {
 				fail(step, "lock failed: %v", err)
 			}
 			closeAll()
@@ -153,7 +174,7 @@ func runTimeoutHistory(t lib.TB, airDrop bool, ops []top) (st timeoutStats) {
 			if o.Kind == "chpassBad" {
 				old = "never" + cur
 			}
-			if err := wl.ProcWalletSetPasswd(&types.ReqWalletSetPasswd{OldPass: old, NewPass: nw}); err == nil {
+			if err := w.n.w.ProcWalletSetPasswd(&types.ReqWalletSetPasswd{OldPass: old, NewPass: nw}); err == nil {
 				cur = nw
 				w.mu.Lock()
 				w.cur = nw
@@ -161,7 +182,7 @@ func runTimeoutHistory(t lib.TB, airDrop bool, ops []top) (st timeoutStats) {
 			}
 			st.chpassIns = st.chpassIns || inWindow
 		case "status":
-			if wl.GetWalletStatus().IsWalletLock {
+			if w.n.w.GetWalletStatus().IsWalletLock {
 				closeAll() // seen locked (timeout): stays closed until the next successful unlock
 			} else if !mayBeUnlocked() {
 				fail(step, "GetWalletStatus reports unlocked with no open unlock window")
@@ -170,11 +191,11 @@ func runTimeoutHistory(t lib.TB, airDrop bool, ops []top) (st timeoutStats) {
 			var err error
 			switch o.Kind {
 			case "dump":
-				_, err = wl.ProcDumpPrivkey(w.addrs[step%len(w.addrs)])
+				_, err = w.n.w.ProcDumpPrivkey(w.addrs[step%len(w.addrs)])
 			case "sign":
-				_, err = wl.ProcSignRawTx(&types.ReqSignRawTx{Addr: w.addrs[step%len(w.addrs)], TxHex: unsignedTx, Expire: "0"})
+				_, err = w.n.w.ProcSignRawTx(&types.ReqSignRawTx{Addr: w.addrs[step%len(w.addrs)], TxHex: unsignedTx, Expire: "0"})
 			default:
-				_, err = wl.GetSeed(cur)
+				_, err = w.n.w.GetSeed(cur)
 			}
 			if err == nil && !mayBeUnlocked() {
 				fail(step, "%s succeeded with no open unlock window", o.Kind)
@@ -190,12 +211,12 @@ func runTimeoutHistory(t lib.TB, airDrop bool, ops []top) (st timeoutStats) {
 			case untimed: // an untimed successful unlock is open: nothing says the wallet must relock
 				st.skipped++
 			case !timed:
-				if !wl.IsWalletLocked() {
+				if !w.n.w.IsWalletLocked() {
 					fail(step, "IsWalletLocked()==false with no open unlock window")
 				}
 			default:
 				st.waited++
-				if !waitRelock(limitTicks, wl.IsWalletLocked) {
+				if !waitRelock(limitTicks, func() bool { return w.n.w.IsWalletLocked() }) {
 					fail(step, "wallet still unlocked after this process's 50 ms heartbeat measured more than timeout + %v since the last timed unlock returned; no untimed unlock is open, so the unlock timeout did not close the window", relockGrace)
 				}
 				closeAll()
@@ -209,10 +230,14 @@ func TestPropTimeoutHistory(t *testing.T) {
 	defer lib.Flush()
 	heartbeat()
 	rapid.Check(t, func(t *rapid.T) {
+		start := rapid.SampledFrom([]string{"existing", "fresh"}).Draw(t, "start")
 		airDrop := rapid.IntRange(0, 3).Draw(t, "airDropAccountAtStart") > 0
 		ops := genTimeoutHistory(t)
 		lib.Eval()
-		st := runTimeoutHistory(t, airDrop, ops)
+		st := runTimeoutHistory(t, start, airDrop, ops)
+		lib.Class("start_" + start)
+		lib.ClassN("requests_before_first_correct_unlock_"+start, st.beforeFirstUnlock)
+		lib.ClassN("restarts", st.restarts)
 		lib.ClassN("timeout_waited", st.waited)
 		lib.ClassN("timeout_wait_skipped_untimed_window_open", st.skipped)
 		if st.badUnlockInside {
@@ -224,7 +249,7 @@ func TestPropTimeoutHistory(t *testing.T) {
 		// non-trivial: the wallet's own timer had to close a window in which a failed whole-wallet unlock or a
 		// password change had arrived
 		if st.waited > 0 && (st.badUnlockInside || st.chpassIns) {
-			lib.NonTrivialCase(map[string]interface{}{"airDropAccountAtStart": airDrop, "ops": ops})
+			lib.NonTrivialCase(map[string]interface{}{"start": start, "airDropAccountAtStart": airDrop, "ops": ops})
 		}
 	})
 }
